@@ -519,7 +519,7 @@ func (fc *fileCtx) instrument(info *types.Info, pkg *types.Package, tick bool) {
 				}
 				expr := fc.text(val.Pos(), val.End())
 				expr = strings.Replace(expr, "runtime.NumCPU()", "simrt.NumCPU()", -1)
-				expr = strings.Replace(expr, "runtime.GOMAXPROCS(0)", "simrt.NumCPU()", -1)
+				expr = strings.Replace(expr, "runtime.GOMAXPROCS(0)", "simrt.GoMaxProcs()", -1)
 				fc.reinit = append(fc.reinit, vs.Names[i].Name+" = "+expr)
 				fc.count("pkgchan")
 				// make sure the file is rewritten even if nothing else changes
@@ -601,7 +601,7 @@ func (fc *fileCtx) instrument(info *types.Info, pkg *types.Package, tick bool) {
 			// code sizes a worker pool: same seam as runtime.NumCPU()
 			if sel, ok := x.Fun.(*ast.SelectorExpr); ok && pkgOf(info, sel.X) == "runtime" && sel.Sel.Name == "GOMAXPROCS" && len(x.Args) == 1 {
 				if lit, ok := x.Args[0].(*ast.BasicLit); ok && lit.Value == "0" {
-					fc.repl(x.Pos(), x.End(), "simrt.NumCPU()")
+					fc.repl(x.Pos(), x.End(), "simrt.GoMaxProcs()")
 					touch(sel.X, "NumCPU")
 					fc.count("numcpu")
 				}
